@@ -308,9 +308,14 @@ type c08State struct {
 	// scatter clause
 	scOK   bool
 	scDesc string
+	only   bool // nodes beyond the first are configured for the kind under test only
 }
 
-func multiSvc(nodes []*c08Node, conc int) *multinode.Service {
+func multiSvc(nodes []*c08Node, conc int) *multinode.Service { return multiSvcFor(nodes, conc, "") }
+
+// multiSvcFor builds the multinode submitter.  With only != "" the nodes beyond the first are configured for
+// that submission kind alone (vouch's configuration lists beacon nodes per kind; the lists may differ).
+func multiSvcFor(nodes []*c08Node, conc int, only string) *multinode.Service {
 	ps := map[string]eth2client.ProposalSubmitter{}
 	as := map[string]eth2client.AttestationsSubmitter{}
 	gs := map[string]eth2client.AggregateAttestationsSubmitter{}
@@ -322,7 +327,31 @@ func multiSvc(nodes []*c08Node, conc int) *multinode.Service {
 	for i, n := range nodes {
 		n.idx = i
 		k := fmt.Sprintf("n%d", i)
-		ps[k], as[k], gs[k], pp[k], bs[k], sm[k], ss[k], sc[k] = n, n, n, n, n, n, n, n
+		all := only == "" || i == 0
+		if all || only == "proposal" {
+			ps[k] = n
+		}
+		if all || only == "attestations" {
+			as[k] = n
+		}
+		if all || only == "aggregates" {
+			gs[k] = n
+		}
+		if all || only == "preparations" {
+			pp[k] = n
+		}
+		if all || only == "beaconsubscriptions" {
+			bs[k] = n
+		}
+		if all || only == "syncmessages" {
+			sm[k] = n
+		}
+		if all || only == "syncsubscriptions" {
+			ss[k] = n
+		}
+		if all || only == "synccontributions" {
+			sc[k] = n
+		}
 	}
 	s, err := multinode.New(context.Background(), multinode.WithLogLevel(zerolog.Disabled), multinode.WithClientMonitor(&nullmetrics.Service{}),
 		multinode.WithTimeout(c08Timeout), multinode.WithProcessConcurrency(int64(conc)),
@@ -364,7 +393,13 @@ func c08Units(tier string) []hx.Unit {
 						st.size = 1
 					}
 					st.conc = []int{1, 2, 4}[mc.Choose(3)]
-					svc := multiSvc(st.nodes, st.conc)
+					// the later nodes are configured for every kind, or for this kind only
+					only := ""
+					if n == 2 && mc.Choose(2) == 1 {
+						only = k.name
+					}
+					st.only = only != ""
+					svc := multiSvcFor(st.nodes, st.conc, only)
 					t0 := mc.Now()
 					st.payload, st.err = k.multi(svc, context.Background(), st.size)
 					st.t1 = mc.Now() - t0
@@ -478,6 +513,60 @@ func c08Units(tier string) []hx.Unit {
 		}
 		units = append(units, u)
 	}
+	// histories with a node that never answers: three submissions in a row through one service instance to a
+	// hanging node and a healthy one (concurrency = number of nodes): each of them reaches the healthy node
+	// and succeeds — what an earlier submission left outstanding must not starve a later one
+	for ki := range kinds {
+		k := kinds[ki]
+		var errs []error
+		var got []int
+		doneH := false
+		nSub := 3
+		u := hx.Unit{Name: "C08/history-hanging-node/" + k.name, Cfg: mc.Config{Fixed: true, Horizon: int64(120 * time.Second)}}
+		u.Body = func() {
+			errs, got, doneH = nil, nil, false
+			hang := &c08Node{beh: c08Basic[0], lat: len(c08Lats) - 1}
+			ok := &c08Node{beh: c08Basic[0]}
+			nodes := []*c08Node{hang, ok}
+			if mc.Choose(2) == 1 {
+				nodes = []*c08Node{ok, hang}
+			}
+			svc := multiSvc(nodes, 2)
+			for i := 0; i < nSub; i++ {
+				before := len(ok.got)
+				_, err := k.multi(svc, context.Background(), 1)
+				errs = append(errs, err)
+				mc.Sleep(int64(time.Second))
+				got = append(got, len(ok.got)-before)
+			}
+			doneH = true
+		}
+		u.Check = func(r *mc.Result) mc.Verdict {
+			var d []string
+			for i := range errs {
+				d = append(d, fmt.Sprintf("err=%v/delivered=%d", errs[i] != nil, got[i]))
+			}
+			v := mc.Verdict{Outcome: "hanging-node history " + strings.Join(d, " "), Nontrivial: true, Sample: k.name + ": submissions through one service to a hanging and a healthy node: " + strings.Join(d, ", then ")}
+			switch {
+			case r.Panic != "":
+				v.Violation, v.Key = v.Sample+": panic: "+firstLine(r.Panic), "C08/"+k.name+"/panic"
+			case !doneH:
+				v.Violation, v.Key = v.Sample+": a submission never returned", "C08/"+k.name+"/never-returned"
+			}
+			for i := range errs {
+				if v.Violation != "" {
+					break
+				}
+				if got[i] != 1 {
+					v.Violation, v.Key = fmt.Sprintf("%s: submission %d reached the healthy node %d times", v.Sample, i+1, got[i]), "C08/"+k.name+"/payload-not-delivered-exactly-once"
+				} else if errs[i] != nil {
+					v.Violation, v.Key = fmt.Sprintf("%s: submission %d was accepted by the healthy node but reported as failed", v.Sample, i+1), "C08/"+k.name+"/failure-despite-acceptance"
+				}
+			}
+			return v
+		}
+		units = append(units, u)
+	}
 	// Scatter: extents cover the input exactly once, for every (items, concurrency)
 	{
 		st := &c08State{}
@@ -555,7 +644,11 @@ func c08Check(k *c08Kind, st *c08State, r *mc.Result) mc.Verdict {
 	}
 	v := mc.Verdict{}
 	v.Outcome = fmt.Sprintf("err=%v@%d", st.err != nil, st.t1/int64(time.Second))
-	v.Sample = fmt.Sprintf("%s nodes=[%s] size=%d concurrency=%d -> %s", k.name, strings.Join(desc, " "), st.size, st.conc, v.Outcome)
+	cfg := ""
+	if st.only {
+		cfg = " (later nodes for this kind only)"
+	}
+	v.Sample = fmt.Sprintf("%s nodes=[%s]%s size=%d concurrency=%d -> %s", k.name, strings.Join(desc, " "), cfg, st.size, st.conc, v.Outcome)
 	v.Nontrivial = len(st.nodes) > 1 || r.Touched > 0
 	fail := func(key, msg string) mc.Verdict {
 		v.Violation = v.Sample + ": " + msg
@@ -641,7 +734,7 @@ func init() {
 	hx.Register(&hx.Prop{
 		ID:    "C08",
 		Title: "A submission reaches every configured node and succeeds iff one accepts",
-		Rule: "for each of the 8 submission kinds of the multinode submitter and n = 1..2 (thorough 3) scripted nodes: every assignment of behaviour (accept, reject, each client-specific tolerated rejection, error JSON with one real failure / without failure list / with a null failure / non-JSON) x latency (0, <timeout, =timeout, >timeout, hang) per node x payload size {1,3} x process concurrency {1,2,4}, explored with deviation-bounded schedules (bound 0-1); plus, for the kinds with tolerated rejections, every history of 2 (thorough 3) submissions through one service instance to a node whose version endpoint is up or down and which accepts, rejects tolerably or rejects; plus the immediate submitter per kind and util.Scatter for all (items<=24, concurrency<=6); " +
+		Rule: "for each of the 8 submission kinds of the multinode submitter and n = 1..2 (thorough 3) scripted nodes: every assignment of behaviour (accept, reject, each client-specific tolerated rejection, error JSON with one real failure / without failure list / with a null failure / non-JSON) x latency (0, <timeout, =timeout, >timeout, hang) per node x payload size {1,3} x process concurrency {1,2,4} x later nodes configured for every kind / for this kind only, explored with deviation-bounded schedules (bound 0-1); plus, for the kinds with tolerated rejections, every history of 2 (thorough 3) submissions through one service instance to a node whose version endpoint is up or down and which accepts, rejects tolerably or rejects; plus, per kind, three submissions in a row through one service to a hanging and a healthy node; plus the immediate submitter per kind and util.Scatter for all (items<=24, concurrency<=6); " +
 			"non-trivial = more than one node or a contended scheduling point; distinct = distinct (result, return second) outcomes",
 		Assumptions: []string{
 			"the set of rejections vouch deliberately tolerates is the one in the code's client/kind table (lighthouse known/behind, nimbus unknown target, lighthouse/teku all-duplicate failures)",
